@@ -276,6 +276,7 @@ func normalize(pkgs []*packages.Package, dropUnused bool) map[string][]byte {
 				if !ok || fd.Body == nil {
 					continue
 				}
+				nz.loopHeaderCalls(p, f, fd)
 				nz.rewriteBlock(p, f, fd, fd.Body)
 				nz.rewriteExprs(p, f, fd)
 			}
@@ -395,9 +396,6 @@ func containsFuncLit(n ast.Node) bool {
 
 func notInlinable(fd *ast.FuncDecl, obj *types.Func, info *types.Info) string {
 	sig := obj.Type().(*types.Signature)
-	if sig.Variadic() {
-		return "variadic"
-	}
 	if sig.TypeParams() != nil || sig.RecvTypeParams() != nil {
 		return "generic"
 	}
@@ -753,6 +751,23 @@ func mentioned(args []ast.Expr, i int, name string) bool {
 	return found
 }
 
+// hasHelperCall: e contains (outside function literals) a call of a helper the normaliser inlines.
+func (nz *normalizer) hasHelperCall(p *packages.Package, e ast.Expr) bool {
+	found := false
+	ast.Inspect(e, func(m ast.Node) bool {
+		if _, isLit := m.(*ast.FuncLit); isLit {
+			return false
+		}
+		if c, ok := m.(*ast.CallExpr); ok {
+			if h, _ := nz.calleeOf(p, c); h != nil {
+				found = true
+			}
+		}
+		return true
+	})
+	return found
+}
+
 // countNested: a copy of h's body was placed somewhere; every reference it holds to another helper or local closure is one
 // more use of that helper (so that its definition is not dropped while copies still call it – the next round inlines them).
 func (nz *normalizer) countNested(h *helper) {
@@ -785,7 +800,24 @@ func (nz *normalizer) inlineStmtsP(h *helper, p *packages.Package, f *ast.File, 
 	id := inlineSeq
 	sig := h.sig
 	names, ptypes := paramList(h)
-	args := call.Args
+	args := append([]ast.Expr{}, call.Args...)
+	if sig.Variadic() && !call.Ellipsis.IsValid() {
+		// f(a, b, c) with f(x T, rest ...U): the trailing arguments are packed as the call would pack them ([]U{b, c}; nil
+		// when there is none)
+		fixed := sig.Params().Len() - 1
+		if len(args) < fixed {
+			return nil, nil, false
+		}
+		te, tok := nz.typeExpr(sig.Params().At(fixed).Type(), p, f)
+		if !tok {
+			return nil, nil, false
+		}
+		var packed ast.Expr = &ast.CallExpr{Fun: &ast.ParenExpr{X: te}, Args: []ast.Expr{ast.NewIdent("nil")}}
+		if len(args) > fixed {
+			packed = &ast.CompositeLit{Type: te, Elts: append([]ast.Expr{}, args[fixed:]...)}
+		}
+		args = append(args[:fixed:fixed], packed)
+	}
 	if recv != nil {
 		args = append([]ast.Expr{recv}, args...)
 	}
@@ -1019,7 +1051,7 @@ func (nz *normalizer) stmtCall(p *packages.Package, s ast.Stmt) (*ast.CallExpr, 
 		return nil, nil, nil
 	}
 	// single-expression helpers with pure arguments are substituted as expressions (rewriteExprs)
-	if h.expr != nil && allPure(call.Args) && (recv == nil || pureExpr(recv)) {
+	if h.expr != nil && !h.sig.Variadic() && allPure(call.Args) && (recv == nil || pureExpr(recv)) {
 		return nil, nil, nil
 	}
 	return call, h, recv
@@ -1366,7 +1398,8 @@ func (nz *normalizer) rewriteBlock(p *packages.Package, f *ast.File, fd *ast.Fun
 		}
 	}
 	nz.curSig = curSig
-	fix := func(list []ast.Stmt) []ast.Stmt {
+	var fix func(list []ast.Stmt) []ast.Stmt
+	fix = func(list []ast.Stmt) []ast.Stmt {
 		var out []ast.Stmt
 		for si, s := range list {
 			// if / switch with an init statement that is a helper call: hoist the init into an enclosing block
@@ -1381,8 +1414,25 @@ func (nz *normalizer) rewriteBlock(p *packages.Package, f *ast.File, fd *ast.Fun
 						continue
 					}
 				}
+				// `if v := e; helper(v) {…}`: the init statement moves in front, inside a block that keeps its scope
+				if x.Init != nil && nz.hasHelperCall(p, x.Cond) {
+					init := x.Init
+					x.Init = nil
+					out = append(out, &ast.BlockStmt{List: fix([]ast.Stmt{init, x})})
+					continue
+				}
 			case *ast.LabeledStmt:
-				// keep labels attached to their statement
+				// keep labels attached to their statement; a labelled helper call (`finish: c.drain()`, the target of a goto)
+				// becomes the label on an empty statement followed by the inlined copy
+				switch x.Stmt.(type) {
+				case *ast.ExprStmt, *ast.AssignStmt, *ast.ReturnStmt:
+					if repl, ok := nz.replaceStmtP(p, f, x.Stmt, fd, nil); ok {
+						x.Stmt = &ast.EmptyStmt{}
+						out = append(out, x)
+						out = append(out, repl...)
+						continue
+					}
+				}
 			}
 			var check *ast.IfStmt
 			if si+1 < len(list) {
@@ -1457,7 +1507,7 @@ func (nz *normalizer) rewriteExprs(p *packages.Package, f *ast.File, fd *ast.Fun
 			return true
 		}
 		h, recv := nz.calleeOf(p, call)
-		if h == nil || h.expr == nil || !allPure(call.Args) || (recv != nil && !pureExpr(recv)) {
+		if h == nil || h.expr == nil || h.sig.Variadic() || !allPure(call.Args) || (recv != nil && !pureExpr(recv)) {
 			return true
 		}
 		if _, isDefer := c.Parent().(*ast.DeferStmt); isDefer {
@@ -1588,9 +1638,6 @@ func closureInlinable(lit *ast.FuncLit, self types.Object, info *types.Info) str
 	sig, _ := info.TypeOf(lit).(*types.Signature)
 	if sig == nil {
 		return "no signature"
-	}
-	if sig.Variadic() {
-		return "variadic"
 	}
 	why := ""
 	ast.Inspect(lit.Body, func(n ast.Node) bool {
@@ -1921,7 +1968,7 @@ func (nz *normalizer) hoistNested(p *packages.Package, f *ast.File, s ast.Stmt) 
 	if h == nil || h.sig.Results().Len() != 1 {
 		return nil, false
 	}
-	if h.expr != nil && allPure(first.Args) && (recv == nil || pureExpr(recv)) {
+	if h.expr != nil && !h.sig.Variadic() && allPure(first.Args) && (recv == nil || pureExpr(recv)) {
 		return nil, false // substituted as an expression later
 	}
 	// the whole statement being the call is replaceStmt's business
